@@ -263,6 +263,7 @@ def run(ctx):
         C04.c04e(ctx, tu)   # decommission unlinks every element
         C08.c08d(ctx, tu)   # records C01.d for matches()
         from rules import C03
+        C03.c03a(ctx, tu)   # the predicates the dispatch relies on, base and overrides
         C03.c03b(ctx, tu)   # "not saturated / not forbidding" presupposes that every TIMES / RT_TIMES form sets the limits it says
         units.append({"unit": tu.name, "functions": len(tu.fns)})
     ctx.floor("C01.d parameter-fold instantiations", n, 5)
